@@ -151,7 +151,8 @@ def main(argv=None):
             discharged += 1
         elif v == "violated":
             for i, c in enumerate(r["counterexamples"]):
-                path = os.path.join(ROOT, "replay", prop, f"{o.name}-{i}.json")
+                safe = "".join(ch if (ch.isalnum() or ch in "-_.[],=") else "_" for ch in o.name)
+                path = os.path.join(ROOT, "replay", prop, f"{safe}-{i}.json")
                 rec = {"property": prop, "obligation": o.name, "tier": a.tier, "model": c["model"], "label": c["label"], "detail": c.get("detail")}
                 if o.public_replay is not None:
                     rr = _run_worker(["replay", prop, o.name, a.tier, json.dumps(c["model"])], 900)
